@@ -118,6 +118,29 @@ class PyFacts(object):
           for c in ast.walk(x.msg):
             diag_ids.add(id(c))
     callee_ids = {id(x.func) for x in walk_local(fi.node) if isinstance(x, ast.Call)}
+    # keyword-argument dicts ({'operators': [...]} applied with **): their keys
+    # are parameter names of parser functions, not symbols of the language
+    param_names = set()
+    for f_ in self.m.funcs.values():
+      param_names.update(f_.params)
+    kwarg_keys = set()
+    star_names = any(isinstance(x, ast.Call) and any(k.arg is None and isinstance(k.value, ast.Name)
+                                                     for k in x.keywords)
+                     for x in walk_local(fi.node))
+    direct_star = {id(k.value) for x in walk_local(fi.node) if isinstance(x, ast.Call)
+                   for k in x.keywords if k.arg is None}
+    table_cells = set()
+    for x in walk_local(fi.node):
+      if isinstance(x, (ast.Tuple, ast.List)):
+        for row in x.elts:
+          if isinstance(row, (ast.Tuple, ast.List)):
+            table_cells.update(id(c) for c in row.elts)
+    for x in walk_local(fi.node):
+      if isinstance(x, ast.Dict) and x.keys and all(
+          isinstance(k, ast.Constant) and isinstance(k.value, str) and k.value in param_names
+          and k.value.isidentifier() for k in x.keys) and (
+              id(x) in direct_star or (star_names and id(x) in table_cells)):
+        kwarg_keys.update(id(k) for k in x.keys)
     fmt_receivers = {id(x.func.value) for x in walk_local(fi.node)
                      if isinstance(x, ast.Call) and isinstance(x.func, ast.Attribute)
                      and x.func.attr == 'format' and isinstance(x.func.value, ast.Constant)}
@@ -130,7 +153,8 @@ class PyFacts(object):
         calls.append(x.id)
       if isinstance(x, ast.Name) and isinstance(x.ctx, ast.Load) and x.id in self.consts:
         (diag if id(x) in diag_ids else strs).update(self.const_strings(x.id))
-      if isinstance(x, ast.Constant) and isinstance(x.value, str) and x.value != doc:
+      if isinstance(x, ast.Constant) and isinstance(x.value, str) and x.value != doc \
+          and id(x) not in kwarg_keys:
         v = x.value
         if id(x) in fmt_receivers:
           v = FORMAT_RECEIVER + v
@@ -395,6 +419,14 @@ def run(chk):
       for k in c.keywords:
         if k.arg == 'operators':
           py_prop_ops = tables.const_value(k.value)
+    # ... or a keyword dict {'operators': [...]} kept in a dispatch table
+    if isinstance(c, ast.Dict):
+      for k, v in zip(c.keys, c.values):
+        if const_str(k) == 'operators':
+          try:
+            py_prop_ops = tables.const_value(v)
+          except AnalysisError:
+            pass
   cppp = cpp.func('ParseProposition').facts()
   cpp_prop_ops = [s for name, strs, thr in cppp['call_args'] for s in strs if s is not None]
   pstr = [v for v in cpp.ordered_strings('ParseProposition', helpers) if v in ('&&', '||')]
